@@ -140,3 +140,23 @@ impl Item for Tok12 {
     fn scratch() -> Tok12 { Tok12 { z0: 0, z1: 0, id: INERT as u32 } }
     fn origin_or_val(&self) -> u64 { LEDGER.with(|l| l.borrow().origins.get(&(self.id as u64)).copied()).unwrap_or(self.id as u64) }
 }
+
+/// A `Copy` item type whose size (12 bytes) differs from its alignment (4) and is not a power of two: byte counts
+/// computed from the alignment, or from a rounded size, copy the wrong amount. The third word is a checksum of the
+/// value, so a partially copied item does not read back as a plausible value.
+#[repr(C)]
+#[derive(Clone, Copy, PartialEq, Debug, Default)]
+pub struct C12 { pub lo: u32, pub hi: u32, pub chk: u32 }
+
+fn chk_of(v: u64) -> u32 { ((v as u32) ^ ((v >> 32) as u32)).wrapping_mul(0x9E37_79B1) | 1 }
+
+impl Item for C12 {
+    const OWNED: bool = false;
+    fn make(v: u64) -> C12 { if v == 0 { C12::default() } else { C12 { lo: v as u32, hi: (v >> 32) as u32, chk: chk_of(v) } } }
+    fn val(&self) -> u64 {
+        let v = self.lo as u64 | ((self.hi as u64) << 32);
+        if self.lo == 0 && self.hi == 0 && self.chk == 0 { 0 } else if self.chk == chk_of(v) { v } else { (1u64 << 62) | (v & 0xFFFF_FFFF) }
+    }
+    fn scratch() -> C12 { C12::make(0xDEAD_BEEF_DEAD_BEEF) }
+    fn origin_or_val(&self) -> u64 { self.val() }
+}
